@@ -339,8 +339,10 @@ func run(c *hx.Ctx, kind string, f filt, p parms, data []byte, known [][]byte, e
 	switch kind {
 	case "hex":
 		c.Op("c05.hex "+hx.Hex(data), reply)
+		c.Op("c05.spec.hex "+hx.Hex(data), reply)
 	case "a85":
 		c.Op("c05.a85 "+hx.Hex(data), reply)
+		c.Op("c05.spec.a85 "+hx.Hex(data), reply)
 	case "pred":
 		// data is a zlib stream; the model gets what zlib makes of it
 		inf, iok := inflate(data)
@@ -549,6 +551,14 @@ func content(r *hx.Rng, n, period int) ([]byte, string) {
 // stages that are not last from the length of their input. Returns the encoded data and the
 // intermediates handed to zlib-compress (keys of the inflate table are their compressed forms).
 func buildChain(r *hx.Rng, stages []stage, x []byte) (data []byte, flateInputs [][]byte) {
+	data, flateInputs, _ = buildChainMids(r, stages, x)
+	return data, flateInputs
+}
+
+// buildChainMids also returns every intermediate: mids[0] = x, mids[k] = the data after the k
+// innermost stages have been applied (mids[len(stages)] = the encoded stream data).
+func buildChainMids(r *hx.Rng, stages []stage, x []byte) (data []byte, flateInputs [][]byte, mids [][]byte) {
+	mids = append(mids, x)
 	cur := x
 	for i := len(stages) - 1; i >= 0; i-- {
 		s := &stages[i]
@@ -563,11 +573,12 @@ func buildChain(r *hx.Rng, stages []stage, x []byte) (data []byte, flateInputs [
 			}
 		}
 		cur = s.encode(r, cur)
+		mids = append(mids, cur)
 		if s.Kind == "fl" {
 			flateInputs = append(flateInputs, cur)
 		}
 	}
-	return cur, flateInputs
+	return cur, flateInputs, mids
 }
 
 func randomStage(r *hx.Rng) stage {
@@ -684,7 +695,7 @@ func RunPipeline(c *hx.Ctx, idx int) {
 		}
 	}
 	x, class := content(r, n, period)
-	data, flIn := buildChain(r, stages, x)
+	data, flIn, mids := buildChainMids(r, stages, x)
 	f, p, shape := shapes(r, stages)
 	var kinds []string
 	key := "C05/roundtrip-chain"
@@ -707,6 +718,8 @@ func RunPipeline(c *hx.Ctx, idx int) {
 	e := wantBytes(key, x)
 	e.note = fmt.Sprintf("seed=%d index=%d stages=%s content=%s", c.Seed, idx, strings.Join(kinds, ","), class)
 	_, ok := run(c, "chain", f, p, data, flIn, e)
+	pipelineDict(c, r.Fork(0xD1), stages, f, p, data, flIn, e)
+	pipelineWrites(c, stages, flIn, mids)
 	c.Count("pipeline:" + strings.Join(kinds, ">"))
 	c.Count("shape:" + shape)
 	c.Count("content:" + class)
@@ -721,6 +734,25 @@ func RunPipeline(c *hx.Ctx, idx int) {
 		c.Count("len:4097-65536")
 	}
 	c.Case(fmt.Sprintf("%s|%s|%x", f.wire(), p.wire(), data), ok && len(x) > 0)
+
+	// the outermost filter is an ASCII filter: bytes after its EOD marker do not belong to
+	// the data (must not change the result); the same data without the marker is tolerated
+	// by tabula (no expectation, correspondence only)
+	if k0 := stages[0].Kind; (k0 == "hex" || k0 == "a85") && r.Chance(1, 3) {
+		eod := 1
+		if k0 == "a85" {
+			eod = 2
+		}
+		tail := r.Bytes(r.Range(1, 12))
+		if r.Bool() {
+			tail = []byte(hx.Pick(r, []string{"~>", ">", "zz", "\x00", "00>", "endstream", "!!!!!"}))
+		}
+		e2 := e
+		e2.key = "C05/roundtrip-after-eod"
+		run(c, "chain", f, p, append(append([]byte(nil), data...), tail...), flIn, e2)
+		run(c, "chain", f, p, data[:len(data)-eod], flIn, noExpect)
+		c.Count("eod:" + k0 + ":trailing-bytes+no-marker")
+	}
 
 	// the same data under a non-conforming but tolerated parameter layout, and malformed
 	// variants: correspondence only
@@ -778,6 +810,7 @@ func malformed(c *hx.Ctx, r *hx.Rng, f filt, p parms, data []byte, known [][]byt
 		}
 	}
 	_, ok := run(c, "chain", f, p, d, known, noExpect)
+	runDict(c, dictWo(r.Fork(0xD2), f, p, deco{Extra: true, Shuffle: true, RealInts: true, Fraction: r.Chance(1, 3), Others: true}), d, known, noExpect)
 	c.Count(fmt.Sprintf("malformed:%d:ok=%v", what, ok))
 	c.Case("", false)
 }
@@ -1078,12 +1111,13 @@ func specEncoders(c *hx.Ctx) {
 func init() { hx.Register("C05", Run, Replay) }
 
 func Run(c *hx.Ctx) {
-	c.Rep.Rule = "exhaustive: every byte string of length <= 3 over {00,01,7F,80,FF,z,~,>} through ASCIIHex/ASCII85 (canonical and white-space/case styled) and, tiled into rows, through Flate with Predictor {1,2,10..15} x Colors 1..4 x Columns 1..8 (quick tier: full for small geometries, every 23rd otherwise); all per-row PNG filter-type triples over a geometry grid; every string of length <= 4 (thorough 5/6) over alphabets of encoded characters fed raw to the ASCII decoders. random: pipelines of 1..3 stages of {Flate (no parms, Predictor 1, TIFF, PNG with independent per-row types), ASCIIHex, ASCII85} with full or abbreviated names, lengths 0..64 KiB, random/zero/FF/periodic/ramp/sparse content, Columns 1..700, Colors 1..4, DecodeParms as dict, array, null or absent, encoded by the harness's own encoders (from the PDF/PNG/TIFF specifications) and compress/zlib at five levels. undecodable classes built by damaging conforming encodings in a way the specification forbids. non-trivial = decoded without error to a non-empty string; distinct by (Filter, DecodeParms, data)."
+	c.Rep.Rule = "exhaustive: every byte string of length <= 3 over {00,01,7F,80,FF,z,~,>} through ASCIIHex/ASCII85 (canonical and white-space/case styled) and, tiled into rows, through Flate with Predictor {1,2,10..15} x Colors 1..4 x Columns 1..8 (quick tier: full for small geometries, every 23rd otherwise); all per-row PNG filter-type triples over a geometry grid; every string of length <= 4 (thorough 5/6) over alphabets of encoded characters fed raw to the ASCII decoders. random: pipelines of 1..3 stages of {Flate (no parms, Predictor 1, TIFF, PNG with independent per-row types), ASCIIHex, ASCII85} with full or abbreviated names, lengths 0..64 KiB, random/zero/FF/periodic/ramp/sparse content, Columns 1..700, Colors 1..4, DecodeParms as dict, array, null or absent, encoded by the harness's own encoders (from the PDF/PNG/TIFF specifications) and compress/zlib at five levels. undecodable classes built by damaging conforming encodings in a way the specification forbids. dictionary level (c05.sd / c05.sess): every pipeline and every malformed variant again through a freshly written stream dictionary (other keys, shuffled key order, numbers as Int or Real), every parameter key x every kind of value (all object types, integers and Reals n +- 1/16, 1/2 around the values of interest), arbitrary object trees under Filter/DecodeParms, histories of 2..8 Decode() calls on 1..4 streams, and /CCITTFaxDecode dictionaries (K, Columns, Rows, BlackIs1 as Int/Real/other objects or absent) on Group-4 images written by the harness (T.6: white or a vertical stripe) with x/image/ccitt's own results for a grid of argument combinations. non-trivial = decoded without error to a non-empty string; distinct by (Filter, DecodeParms, data)."
 	exhaustiveSmall(c)
 	rawAlphabets(c)
 	tagTriples(c)
 	undecodable(c)
 	specEncoders(c)
+	RunDictLevel(c)
 	n := c.N(1200, 12000)
 	for i := 0; i < n; i++ {
 		RunPipeline(c, i)
@@ -1093,6 +1127,9 @@ func Run(c *hx.Ctx) {
 
 // Replay re-runs one recorded failing case on the implementation.
 func Replay(c *hx.Ctx, kase map[string]interface{}) {
+	if replayDict(c, kase) {
+		return
+	}
 	str := func(k string) string { s, _ := kase[k].(string); return s }
 	f, err1 := parseFilt(str("filter"))
 	p, err2 := parseParms(str("parms"))
